@@ -621,6 +621,7 @@ class _TxStim:
         self.big = big
         self.npackets = 0
         self.p_toggle = rng.choice([3, 10, 30])
+        self.stuff_last = False
 
     def usb_cycle_start(self, k):
         # the usb edge ends the cycles with k % 4 == phase; the producer's outputs change right after it
@@ -636,6 +637,9 @@ class _TxStim:
                         self.data = rng.below(256)
                 else:
                     self.queue = gen_bytes(rng, 40 if self.big else 10)
+                    if rng.chance(25):
+                        self.queue[-1] = 0xFC          # the packet's last bit is the sixth 1: STUFF_LAST_BIT
+                        self.stuff_last = True
                     self.npackets += 1
                     self.valid, self.data = 1, self.queue[0]
         elif self.mode == "random" and self.usb_cycle_start(k) or self.mode == "async":
@@ -729,6 +733,8 @@ def run_txcycle(desc):
         tags.add("txc:se0")
     if stim.npackets > 1:
         tags.add("txc:several-packets")
+    if stim.stuff_last:
+        tags.add("txc:stuff-last-bit")
     d = dict(desc)
     return Case([4, phase], inputs, outputs, fails[:5], sorted(tags), d, ["tx_valid", "tx_data"],
                 ["tx_ready", "d_p.o", "d_n.o", "oe", "fit_dat", "fit_oe"])
